@@ -33,7 +33,9 @@ def counts(s):
 
 
 # ---- per-species data ------------------------------------------------------------------------------------------
-SPECIES = M.ELS + M.VARIANTS + ["He{4}", "H{1}", "H{2}", "H{3-1}", "O{16+2}", "Pb", "Au", "W", "Xe"]
+SPECIES = M.ELS + M.VARIANTS + ["He{4}", "H{1}", "H{2}", "H{3-1}", "O{16+2}", "Pb", "Au", "W", "Xe",
+                                # charges of two and more digits, with and without an isotope number
+                                "Fe{56-10}", "Fe{56+26}", "U{238-28}", "Xe{132+12}", "U{-92}", "Fe{+26}", "Pb{208+82}", "O{16-2}", "C{12+6}"]
 
 
 @contract(f"{EL}.__init__", ["C10"], name="Element.__init__")
@@ -196,6 +198,15 @@ for mode, label in (("NUMBER_FRACTION", "number"), ("MASS_FRACTION", "mass")):
                     m = b.new(MAT, b.dict({s: p for s, p in zip(mix, ps)}), natural=nat, norm_type=norm)
                     return dict(args=[m], kwargs=dict(quantity=False), env=dict(ps=ps, ms=[_mass(s, nat) for s in mix], keys=list(mix)))
                 c.scenario("+".join(mix) + ("" if nat else "[most-abundant-isotopes]"), pre)
+        # a table of a selection was asked for first (same instance, nothing changed in between)
+        for mix in [m for m in MIXES if len(m) >= 2][:2]:
+            def pre_sel(b, mix=mix):
+                ps = [b.real(f"p{i}") for i in range(len(mix))]
+                norm = b.getattr(b.cls(NORM), mode)
+                m = b.new(MAT, b.dict({s: p for s, p in zip(mix, ps)}), norm_type=norm)
+                b.call(b.getattr(m, "data_composite"), components=b.list([mix[0]]), quantity=False)
+                return dict(args=[m], kwargs=dict(quantity=False), env=dict(ps=ps, ms=[_mass(s, True) for s in mix], keys=list(mix)))
+            c.scenario("+".join(mix) + "[after-a-table-of-a-selection]", pre_sel)
         # the same mixtures written as an expression '<p> <substance> ...' (each blank is a '+' of materials): literal proportions
         for mix, lit in STRING_MIXES:
             for nat in (True, False):
@@ -338,4 +349,25 @@ def _(c):
     c.scenario("H2O+NaCl", pre)
     c.requires("rho > 0")
     c.ensures("near(self.number_density.value('cm-3'), rho / mbar)", "number-density-is-rho-over-the-mean-particle-mass")
+    c.no_raise()
+
+
+# ---- C12 after add(): raising the amount of a species that is already present changes the formula mass, and the densities follow ------
+@contract("materials/composite.py::Composite.add", ["C12"], name="Composite.add[matter-with-density]")
+def _(c):
+    c.bound = "two substances with a mass density or a number density; species added already present or new; amount and density symbolic"
+    c.chunk = 2
+    c.assume_nonzero_divisors = True
+    for text, key in [("H2O", "O"), ("H2O", "H"), ("NaCl", "Cl"), ("H2O", "C")]:
+        for given in ("rho", "n"):
+            def pre(b, text=text, key=key, given=given):
+                x, p = b.real("x"), b.real("p")
+                kw = dict(mass_density=b.new(QTY, x, "g/cm3")) if given == "rho" else dict(number_density=b.new(QTY, x, "cm-3"))
+                s = b.new(SUB, text, **kw)
+                return dict(args=[s, key, p], env=dict(x=x, p=p, given=given, m0=_mass(text) * DA_G, mk=M.species(key)[0] * DA_G))
+            c.scenario(f"{text} {given} add {key}", pre)
+    c.requires("x > 0 and p > 0")
+    c.ensures("near(self.mass_density.value('g/cm3'), x if given == 'rho' else x * (m0 + p * mk))", "mass-density-is-n-times-the-new-formula-mass")
+    c.ensures("near(self.number_density.value('cm-3'), x / (m0 + p * mk) if given == 'rho' else x)", "number-density-is-rho-over-the-new-formula-mass")
+    c.ensures("(lambda t: near(t['sum'].data()['rho'], self.mass_density.value('g/cm3')) and near(t['sum'].data()['rho'], sum([t[k].data()['rho'] for k in self.components.keys()])))(self.data_matter(quantity=False))", "component-mass-densities-add-up-to-rho")
     c.no_raise()
